@@ -7,6 +7,8 @@ import Umya.Driver.C16
 import Umya.Driver.C18
 import Umya.Driver.C13
 import Umya.Driver.C19
+import Umya.Driver.C09
+import Umya.Driver.C08
 
 structure DState where
   c10 : Umya.Driver.C10.St := {}
@@ -17,6 +19,8 @@ def dispatch (st : DState) (line : String) : DState × String :=
   match line.trimAscii.toString.splitOn " " with
   | "c17" :: args => (st, Umya.Driver.C17.handle args)
   | "c10" :: args => let (s, r) := Umya.Driver.C10.handle st.c10 args; ({ st with c10 := s }, r)
+  | "c09" :: args => (st, Umya.Driver.C09.handle args)
+  | "c08" :: args => (st, Umya.Driver.C08.handle args)
   | "c19" :: args => (st, Umya.Driver.C19.handle args)
   | "c13" :: args => (st, Umya.Driver.C13.handle args)
   | "c18" :: args => (st, Umya.Driver.C18.handle args)
